@@ -96,6 +96,9 @@ pub struct GenCase {
     /// when set: the output lines are these indices into the product alphabet (and `lines` is empty)
     #[serde(default)]
     pub product: Vec<usize>,
+    /// end-to-end replay: `scrut create` with a real printf command, then `scrut test` on the written file
+    #[serde(default)]
+    pub cli: bool,
 }
 
 thread_local! {
@@ -192,9 +195,9 @@ impl Engine for VcGen {
                         for cram in [false, true] {
                             for ascii in [false, true] {
                                 for path in [Path::Create, Path::Update, Path::Convert] {
-                                    v.push(GenCase { lines: lines.clone(), final_newline, exit, command, cram, ascii, path: path.clone(), stderr: false, product: vec![] });
+                                    v.push(GenCase { lines: lines.clone(), final_newline, exit, command, cram, ascii, path: path.clone(), stderr: false, product: vec![], cli: false });
                                     if !cram && path == Path::Update && !full {
-                                        v.push(GenCase { lines: lines.clone(), final_newline, exit, command, cram, ascii, path: path.clone(), stderr: true, product: vec![] });
+                                        v.push(GenCase { lines: lines.clone(), final_newline, exit, command, cram, ascii, path: path.clone(), stderr: true, product: vec![], cli: false });
                                     }
                                 }
                             }
@@ -222,7 +225,7 @@ impl Engine for VcGen {
                         for cram in [false, true] {
                             for ascii in [false, true] {
                                 for path in [Path::Create, Path::Update, Path::Convert] {
-                                    v.push(GenCase { lines: vec![], final_newline, exit, command: 0, cram, ascii, path, stderr: false, product: product.clone() });
+                                    v.push(GenCase { lines: vec![], final_newline, exit, command: 0, cram, ascii, path, stderr: false, product: product.clone(), cli: false });
                                 }
                             }
                         }
@@ -231,7 +234,24 @@ impl Engine for VcGen {
                 v.into_iter()
             })
         });
-        Box::new(it.chain(prod))
+        // end-to-end replays through the binary: every single line of both alphabets, and pairs of the first alphabet
+        let nk2 = line_kinds().len();
+        let mut cli = vec![];
+        for cram in [false, true] {
+            for ascii in [false, true] {
+                for l in 0..nk2 {
+                    for final_newline in [true, false] {
+                        cli.push(GenCase { lines: vec![l], final_newline, exit: if l % 2 == 0 { 0 } else { 1 }, command: 0, cram, ascii, path: Path::Create, stderr: false, product: vec![], cli: true });
+                    }
+                }
+                if thorough {
+                    for a in 0..np {
+                        cli.push(GenCase { lines: vec![], final_newline: true, exit: 0, command: 0, cram, ascii, path: Path::Create, stderr: false, product: vec![a], cli: true });
+                    }
+                }
+            }
+        }
+        Box::new(it.chain(prod).chain(cli.into_iter()))
     }
     fn bound(&self, tier: Tier) -> String {
         format!(
@@ -246,7 +266,7 @@ impl Engine for VcGen {
     }
     fn assumptions(&self, _p: &str) -> Vec<String> {
         vec![
-            "in-process: the Output is constructed directly (what the executors deliver is C13's business); parsers are the ones `scrut test` uses (cram-compat expectation maker for Cram)".into(),
+            "in-process: the Output is constructed directly (what the executors deliver is C13's business); parsers are the ones `scrut test` uses (cram-compat expectation maker for Cram); plus end-to-end replays: `scrut create -- printf ...` followed by `scrut test` for every single line of the alphabets".into(),
             "update/convert start from a document generated for the same command with a stale expectation".into(),
         ]
     }
@@ -308,6 +328,30 @@ impl Engine for VcGen {
             res.findings.push(f);
         };
 
+        if case.cli {
+            use crate::cli::*;
+            use crate::execs::printf_octal;
+            let sb = Sandbox::new();
+            // bash's printf cannot emit NUL-free? it can: \\000 works in printf
+            let expr = format!("printf '{}'; (exit {})", printf_octal(&bytes), exit);
+            let file = if case.cram { "gen.t" } else { "gen.md" };
+            let mut args = vec!["create", "--no-color", "-o", file, "-f", if case.cram { "cram" } else { "markdown" }, "--escaping", if case.ascii { "ascii" } else { "unicode" }];
+            args.push("--");
+            args.push(&expr);
+            let created = run_scrut(&sb, &args, &[], std::time::Duration::from_secs(60));
+            if created.status != Some(0) {
+                fail(&mut res, "create-succeeds", format!("scrut create for output {:?} exit {exit}", String::from_utf8_lossy(&bytes)), format!("status {:?}: {}", created.status, created.stderr_str().lines().last().unwrap_or("")));
+                return res;
+            }
+            let tested = run_scrut(&sb, &["test", "--no-color", "-r", "json", "--escaping", if case.ascii { "ascii" } else { "unicode" }, file], &[], std::time::Duration::from_secs(60));
+            let kinds = tested.json_kinds();
+            res.outcome.push(("C09", hash64(&("cli", case.cram, tested.status))));
+            if tested.status != Some(0) || kinds.as_ref().map(|k| k != &vec!["success".to_string()]).unwrap_or(true) {
+                let doc = std::fs::read_to_string(sb.docs.join(file)).unwrap_or_default();
+                fail(&mut res, "generated-test-passes", format!("`scrut test` passes on the document `scrut create` wrote for output {:?} exit {exit}: {doc:?}", String::from_utf8_lossy(&bytes)), format!("status {:?}, {kinds:?}", tested.status));
+            }
+            return res;
+        }
         // the test the document is generated from
         let fresh = TestCase { title: "Title".into(), shell_expression: cmd.into(), expectations: vec![], exit_code: None, line_number: 0, config: base_cfg.clone() };
         let (generated, target_cram) = match case.path {
